@@ -193,7 +193,12 @@ def build_module(rng, tok: Tok, gated: set, common_only: bool, n_elems: int, nam
             for mn in rng.sample(method_names, rng.randint(0, 3)):
                 mp = [f"m{j}" for j in range(rng.randint(0, 2))]
                 methods.append((mn, mp, model("method", mp, True)))
-            elems.append(("class", cname, cm, {"cparams": cparams, "attrs": attrs, "init": im, "methods": methods, "has_ctor": bool(cparams) or doc_on_init or rng.random() < 0.5}))
+            nested = None
+            if rng.random() < 0.35:
+                # a documented class inside the class, with attributes of the same names as the outer class and a method
+                nattrs = [f"at{j}" for j in range(rng.randint(1, 2))]
+                nested = (f"In{tag}x{i}", nattrs, model("class", [], False, nattrs), [("run", ["m0"], model("method", ["m0"], True))])
+            elems.append(("class", cname, cm, {"cparams": cparams, "attrs": attrs, "init": im, "methods": methods, "has_ctor": bool(cparams) or doc_on_init or rng.random() < 0.5, "nested": nested}))
     mod_model = DocModel()
     mod_model.summary = tok.line(rng, "m")
     mod_model.body = [tok.line(rng, "n")]
@@ -212,11 +217,18 @@ def build_module(rng, tok: Tok, gated: set, common_only: bool, n_elems: int, nam
                 out.append(f"class {name}:\n{pydoc(m.render(style), '    ')}")
                 for a in ex["attrs"]:
                     out.append(f"    {a}: int = 0\n")
+                if ex.get("nested"):
+                    iname, nattrs, nmodel, nmeths = ex["nested"]
+                    out.append(f"\n    class {iname}:\n{pydoc(nmodel.render(style), '        ')}")
+                    for a in nattrs:
+                        out.append(f"        {a}: int = 0\n")
+                    for mn, mp, mm in nmeths:
+                        out.append(f"\n        def {mn}(self{''.join(', ' + p + ': int' for p in mp)}) -> int:\n{pydoc(mm.render(style), '            ')}            return 1\n")
                 if ex["has_ctor"]:
                     out.append(f"\n    def __init__(self{''.join(', ' + p + ': int' for p in ex['cparams'])}) -> None:\n{pydoc(ex['init'].render(style), '        ')}        self.made = 1\n")
                 for mn, mp, mm in ex["methods"]:
                     out.append(f"\n    def {mn}(self{''.join(', ' + p + ': int' for p in mp)}) -> int:\n{pydoc(mm.render(style), '        ')}        return 1\n")
-                if not ex["attrs"] and not ex["has_ctor"] and not ex["methods"] and m.summary is None:
+                if not ex["attrs"] and not ex["has_ctor"] and not ex["methods"] and m.summary is None and not ex.get("nested"):
                     out.append("    pass\n")
                 out.append("\n\n")
         return "".join(out)
@@ -236,6 +248,13 @@ def build_module(rng, tok: Tok, gated: set, common_only: bool, n_elems: int, nam
                 gt[f"{name}/{a}"] = {"kind": "attribute", "owner": name, "attr": a}
             for mn, _mp, mm in ex["methods"]:
                 gt[f"{name}/{mn}"] = {"kind": "method", "model": mm}
+            if ex.get("nested"):
+                iname, nattrs, nmodel, nmeths = ex["nested"]
+                gt[f"{name}/{iname}"] = {"kind": "class", "model": nmodel, "init": DocModel(), "cparams": []}
+                for a in nattrs:
+                    gt[f"{name}/{iname}/{a}"] = {"kind": "attribute", "owner": f"{name}/{iname}", "attr": a}
+                for mn, _mp, mm in nmeths:
+                    gt[f"{name}/{iname}/{mn}"] = {"kind": "method", "model": mm}
     gt["<module>"] = {"kind": "module", "model": mod_model}
     return render, gt
 
